@@ -38,100 +38,101 @@ var anchored = []string{
 
 // panicContracts: callee (types.Func.FullName) -> the contract that makes the call a panic site.
 var panicContracts = map[string]string{
-	"crypto/cipher.NewCBCDecrypter":            "panics if len(iv) != block size",
-	"crypto/cipher.NewCBCEncrypter":            "panics if len(iv) != block size",
-	"(crypto/cipher.BlockMode).CryptBlocks":    "panics if src is not a multiple of the block size or dst is shorter",
-	"(crypto/cipher.AEAD).Seal":                "panics if len(nonce) != NonceSize()",
-	"(crypto/cipher.AEAD).Open":                "panics if len(nonce) != NonceSize()",
-	"(crypto/cipher.Block).Encrypt":            "panics if src or dst is shorter than the block size",
-	"(crypto/cipher.Block).Decrypt":            "panics if src or dst is shorter than the block size",
-	"bytes.Repeat":                             "panics if count < 0 or the result overflows",
-	"strings.Repeat":                           "panics if count < 0 or the result overflows",
-	"crypto/ed25519.Sign":                      "panics if len(privateKey) != PrivateKeySize",
-	"crypto/ed25519.Verify":                    "panics if len(publicKey) != PublicKeySize",
-	"(encoding/binary.bigEndian).PutUint64":    "panics if len(b) < 8",
-	"(encoding/binary.bigEndian).PutUint32":    "panics if len(b) < 4",
-	"(*encoding/base64.Encoding).Encode":       "panics if dst is shorter than EncodedLen(len(src))",
-	"(*encoding/base64.Encoding).Decode":       "panics if dst is shorter than the decoded data",
-	"(crypto.Hash).New":                        "panics if the hash function is not linked into the binary",
-	"reflect.New":                              "panics if typ is nil",
-	"reflect.PtrTo":                            "panics if t is nil",
-	"(reflect.Value).Elem":                     "panics if the kind is not Interface or Pointer",
-	"(reflect.Value).Interface":                "panics on the zero Value or a value obtained from an unexported field",
-	"(reflect.Value).FieldByName":              "panics if the kind is not Struct",
-	"(reflect.Value).Kind":                     "",
-	"(reflect.Value).IsValid":                  "",
-	"(reflect.Value).IsNil":                    "panics if the kind is not chan, func, interface, map, pointer or slice",
-	"(reflect.Type).Elem":                      "panics if the kind is not Array, Chan, Map, Pointer or Slice",
-	"(reflect.Type).Field":                     "panics if the kind is not Struct or i is out of range",
-	"(reflect.Type).NumField":                  "panics if the kind is not Struct",
-	"(reflect.Type).Kind":                      "panics on a nil Type (method call on a nil interface)",
-	"(reflect.Type).Implements":                "panics if u is nil or not an interface type",
-	"(reflect.Type).Name":                      "",
-	"(reflect.StructTag).Get":                  "",
-	"(reflect.StructField).IsExported":         "",
-	"(reflect.Kind).String":                    "",
-	"reflect.TypeOf":                           "",
-	"reflect.ValueOf":                          "",
-	"(reflect.Value).CanInterface":             "",
-	"(reflect.Value).Type":                     "panics on the zero Value",
-	"(reflect.Value).Field":                    "panics if the kind is not Struct or i is out of range",
-	"(reflect.Value).Index":                    "panics if out of range",
-	"(reflect.Value).Len":                      "panics for kinds without a length",
-	"(reflect.Value).MapKeys":                  "panics if the kind is not Map",
-	"(reflect.Value).Set":                      "panics if not settable",
-	"(reflect.Type).Key":                       "panics if the kind is not Map",
-	"(reflect.Type).In":                        "panics if the kind is not Func",
-	"(reflect.Type).Len":                       "panics if the kind is not Array",
-	"(reflect.Value).Int":                      "panics if the kind is not an Int kind",
-	"(reflect.Value).String":                   "",
-	"(reflect.Value).Bool":                     "panics if the kind is not Bool",
-	"(reflect.Value).Call":                     "panics if the kind is not Func",
-	"(reflect.Value).MethodByName":             "",
-	"(reflect.Value).Convert":                  "panics if the conversion is not possible",
-	"(reflect.Value).Addr":                     "panics if not addressable",
-	"(reflect.Value).SetString":                "panics if not settable",
-	"(reflect.Value).NumField":                 "panics if the kind is not Struct",
-	"(reflect.Type).String":                    "",
-	"(reflect.Type).AssignableTo":              "",
-	"(reflect.Type).ConvertibleTo":             "",
-	"(reflect.Type).NumMethod":                 "",
-	"(reflect.Type).PkgPath":                   "",
-	"(reflect.Type).Comparable":                "",
-	"(reflect.Type).Size":                      "",
-	"(reflect.Type).Bits":                      "panics if the kind is not a sized numeric kind",
-	"(reflect.Type).FieldByName":               "panics if the kind is not Struct",
-	"(reflect.Type).Method":                    "panics if i is out of range",
-	"(reflect.Type).MethodByName":              "",
-	"(reflect.Type).NumIn":                     "panics if the kind is not Func",
-	"(reflect.Type).NumOut":                    "panics if the kind is not Func",
-	"(reflect.Type).Out":                       "panics if the kind is not Func",
-	"(reflect.Type).ChanDir":                   "panics if the kind is not Chan",
-	"(reflect.Type).IsVariadic":                "panics if the kind is not Func",
-	"(reflect.Type).Align":                     "",
-	"(reflect.Type).FieldAlign":                "",
-	"(reflect.Type).FieldByIndex":              "panics if the kind is not Struct",
-	"(reflect.Type).FieldByNameFunc":           "panics if the kind is not Struct",
-	"(reflect.Type).OverflowInt":               "panics if the kind is not an Int kind",
-	"(reflect.Type).CanSeq":                    "",
-	"(reflect.Type).CanSeq2":                   "",
-	"(reflect.Type).OverflowComplex":           "panics if the kind is not Complex",
-	"(reflect.Type).OverflowFloat":             "panics if the kind is not Float",
-	"(reflect.Type).OverflowUint":              "panics if the kind is not Uint",
-	"(sync.Pool).Get":                          "",
-	"(*sync.Pool).Get":                         "",
-	"(*sync.Pool).Put":                         "",
-	"(hash.Hash).Sum":                          "",
-	"(hash.Hash).Write":                        "",
-	"(io.Writer).Write":                        "",
-	"(io.Reader).Read":                         "",
-	"(*io.PipeWriter).CloseWithError":          "",
-	"(*io.PipeWriter).Close":                   "",
-	"(*io.PipeWriter).Write":                   "",
-	"(time.Time).AddDate":                      "",
-	"time.Date":                                "panics if loc is nil",
-	"(time.Time).In":                           "panics if loc is nil",
-	"(time.Time).Truncate":                     "",
+	"crypto/cipher.NewCBCDecrypter":         "panics if len(iv) != block size",
+	"crypto/cipher.NewCBCEncrypter":         "panics if len(iv) != block size",
+	"(crypto/cipher.BlockMode).CryptBlocks": "panics if src is not a multiple of the block size or dst is shorter",
+	"(crypto/cipher.AEAD).Seal":             "panics if len(nonce) != NonceSize()",
+	"(crypto/cipher.AEAD).Open":             "panics if len(nonce) != NonceSize()",
+	"(crypto/cipher.Block).Encrypt":         "panics if src or dst is shorter than the block size",
+	"(crypto/cipher.Block).Decrypt":         "panics if src or dst is shorter than the block size",
+	"bytes.Repeat":                          "panics if count < 0 or the result overflows",
+	"strings.Repeat":                        "panics if count < 0 or the result overflows",
+	"crypto/ed25519.Sign":                   "panics if len(privateKey) != PrivateKeySize",
+	"crypto/ed25519.Verify":                 "panics if len(publicKey) != PublicKeySize",
+	"(encoding/binary.bigEndian).PutUint64": "panics if len(b) < 8",
+	"(encoding/binary.bigEndian).PutUint32": "panics if len(b) < 4",
+	"(*encoding/base64.Encoding).Encode":    "panics if dst is shorter than EncodedLen(len(src))",
+	"(*encoding/base64.Encoding).Decode":    "panics if dst is shorter than the decoded data",
+	"(crypto.Hash).New":                     "panics if the hash function is not linked into the binary",
+	"reflect.New":                           "panics if typ is nil",
+	"reflect.PtrTo":                         "panics if t is nil",
+	"(reflect.Value).Elem":                  "panics if the kind is not Interface or Pointer",
+	"(reflect.Value).Interface":             "panics on the zero Value or a value obtained from an unexported field",
+	"(reflect.Value).FieldByName":           "panics if the kind is not Struct",
+	"(reflect.Value).FieldByIndexErr":       "panics if the kind is not Struct",
+	"(reflect.Value).Kind":                  "",
+	"(reflect.Value).IsValid":               "",
+	"(reflect.Value).IsNil":                 "panics if the kind is not chan, func, interface, map, pointer or slice",
+	"(reflect.Type).Elem":                   "panics if the kind is not Array, Chan, Map, Pointer or Slice",
+	"(reflect.Type).Field":                  "panics if the kind is not Struct or i is out of range",
+	"(reflect.Type).NumField":               "panics if the kind is not Struct",
+	"(reflect.Type).Kind":                   "panics on a nil Type (method call on a nil interface)",
+	"(reflect.Type).Implements":             "panics if u is nil or not an interface type",
+	"(reflect.Type).Name":                   "",
+	"(reflect.StructTag).Get":               "",
+	"(reflect.StructField).IsExported":      "",
+	"(reflect.Kind).String":                 "",
+	"reflect.TypeOf":                        "",
+	"reflect.ValueOf":                       "",
+	"(reflect.Value).CanInterface":          "",
+	"(reflect.Value).Type":                  "panics on the zero Value",
+	"(reflect.Value).Field":                 "panics if the kind is not Struct or i is out of range",
+	"(reflect.Value).Index":                 "panics if out of range",
+	"(reflect.Value).Len":                   "panics for kinds without a length",
+	"(reflect.Value).MapKeys":               "panics if the kind is not Map",
+	"(reflect.Value).Set":                   "panics if not settable",
+	"(reflect.Type).Key":                    "panics if the kind is not Map",
+	"(reflect.Type).In":                     "panics if the kind is not Func",
+	"(reflect.Type).Len":                    "panics if the kind is not Array",
+	"(reflect.Value).Int":                   "panics if the kind is not an Int kind",
+	"(reflect.Value).String":                "",
+	"(reflect.Value).Bool":                  "panics if the kind is not Bool",
+	"(reflect.Value).Call":                  "panics if the kind is not Func",
+	"(reflect.Value).MethodByName":          "",
+	"(reflect.Value).Convert":               "panics if the conversion is not possible",
+	"(reflect.Value).Addr":                  "panics if not addressable",
+	"(reflect.Value).SetString":             "panics if not settable",
+	"(reflect.Value).NumField":              "panics if the kind is not Struct",
+	"(reflect.Type).String":                 "",
+	"(reflect.Type).AssignableTo":           "",
+	"(reflect.Type).ConvertibleTo":          "",
+	"(reflect.Type).NumMethod":              "",
+	"(reflect.Type).PkgPath":                "",
+	"(reflect.Type).Comparable":             "",
+	"(reflect.Type).Size":                   "",
+	"(reflect.Type).Bits":                   "panics if the kind is not a sized numeric kind",
+	"(reflect.Type).FieldByName":            "panics if the kind is not Struct",
+	"(reflect.Type).Method":                 "panics if i is out of range",
+	"(reflect.Type).MethodByName":           "",
+	"(reflect.Type).NumIn":                  "panics if the kind is not Func",
+	"(reflect.Type).NumOut":                 "panics if the kind is not Func",
+	"(reflect.Type).Out":                    "panics if the kind is not Func",
+	"(reflect.Type).ChanDir":                "panics if the kind is not Chan",
+	"(reflect.Type).IsVariadic":             "panics if the kind is not Func",
+	"(reflect.Type).Align":                  "",
+	"(reflect.Type).FieldAlign":             "",
+	"(reflect.Type).FieldByIndex":           "panics if the kind is not Struct",
+	"(reflect.Type).FieldByNameFunc":        "panics if the kind is not Struct",
+	"(reflect.Type).OverflowInt":            "panics if the kind is not an Int kind",
+	"(reflect.Type).CanSeq":                 "",
+	"(reflect.Type).CanSeq2":                "",
+	"(reflect.Type).OverflowComplex":        "panics if the kind is not Complex",
+	"(reflect.Type).OverflowFloat":          "panics if the kind is not Float",
+	"(reflect.Type).OverflowUint":           "panics if the kind is not Uint",
+	"(sync.Pool).Get":                       "",
+	"(*sync.Pool).Get":                      "",
+	"(*sync.Pool).Put":                      "",
+	"(hash.Hash).Sum":                       "",
+	"(hash.Hash).Write":                     "",
+	"(io.Writer).Write":                     "",
+	"(io.Reader).Read":                      "",
+	"(*io.PipeWriter).CloseWithError":       "",
+	"(*io.PipeWriter).Close":                "",
+	"(*io.PipeWriter).Write":                "",
+	"(time.Time).AddDate":                   "",
+	"time.Date":                             "panics if loc is nil",
+	"(time.Time).In":                        "panics if loc is nil",
+	"(time.Time).Truncate":                  "",
 }
 
 type site struct {
@@ -244,6 +245,15 @@ func (w *walker) guards(n ast.Node) []string {
 						parts[k] = w.text(e)
 					}
 					add("switch " + tag + " case " + strings.Join(parts, ", "))
+				}
+				// earlier `if c { return }` guards inside the clause body
+				for _, st := range s.Body {
+					if contains(st, child) {
+						break
+					}
+					if ifs, ok := st.(*ast.IfStmt); ok && ifs.Else == nil && terminates(ifs.Body) {
+						add("!(" + w.text(ifs.Cond) + ")")
+					}
 				}
 			}
 		case *ast.BlockStmt:
